@@ -93,9 +93,7 @@ func cmdRun(args []string) {
 		tmp, err := os.MkdirTemp(filepath.Join(*verif, ".work"), "gen-")
 		if err == nil {
 			defer os.RemoveAll(tmp)
-			if f, err := genModel(*repo, tmp, extra); err == nil {
-				extra[genVirt] = f
-			} else {
+			if err := genAll(*repo, tmp, extra); err != nil {
 				fmt.Fprintln(os.Stderr, "generator:", err)
 				os.Exit(3)
 			}
